@@ -45,6 +45,12 @@ def layer_values(tier, lookalikes=False, max_len=None):
         for n in (10, 12):
             yield {"layer": "V", "spec": docs.simple_doc(P("p", vals[:n], dtype)),
                    "tags": {"dtype": dtype, "atoms": [], "n_values": n}}
+    # long text
+    for dtype in ("string", "text", None):
+        for a in docs.LONG_ATOMS:
+            for combo in ([a], [a, "a"], ["a,b", a]):
+                yield {"layer": "V", "spec": docs.simple_doc(P("p", combo, dtype)),
+                       "tags": {"dtype": dtype, "atoms": [repr(x) for x in combo], "n_values": len(combo)}}
     if tier == "thorough":
         for combo in itertools.product(docs.CSV_SENSITIVE, repeat=3):
             yield {"layer": "V", "spec": docs.simple_doc(P("p", combo, "string")),
@@ -91,6 +97,21 @@ def layer_attrs(tier, lookalikes=False):
                     continue          # an empty name falls back to the id: not a text round trip
                 yield {"layer": "A", "spec": attr_doc(kind, attr, a),
                        "tags": {"element": kind, "attr": attr, "atoms": [repr(a)]}}
+    for kind, attrs in (("document", DOC_TEXT_ATTRS), ("section", SEC_TEXT_ATTRS), ("property", PROP_TEXT_ATTRS)):
+        for attr in attrs:
+            for a in docs.LONG_ATOMS:
+                if attr == "name" and "/" in a:
+                    continue
+                yield {"layer": "A", "spec": attr_doc(kind, attr, a),
+                       "tags": {"element": kind, "attr": attr, "atoms": [repr(a)]}}
+    # ids of other kinds than uuid4() makes
+    for kind in ("document", "section", "property"):
+        for oid in docs.ID_FORMS:
+            spec = attr_doc(kind, "definition" if kind != "document" else "author", "x")
+            tgt = spec if kind == "document" else (spec["sections"][0] if kind == "section" else
+                                                   spec["sections"][0]["properties"][0])
+            tgt["id"] = oid
+            yield {"layer": "A", "spec": spec, "tags": {"element": kind, "attr": "id", "atoms": [repr(oid)]}}
     for d in ({"date": "2020-01-02"}, {"date": "1999-12-31"}, {"date": "0999-12-31"}):
         yield {"layer": "A", "spec": attr_doc("document", "date", d),
                "tags": {"element": "document", "attr": "date", "atoms": [repr(d)]}}
@@ -148,6 +169,28 @@ def layer_trees(tier):
         for shape in docs.tree_shapes(n):
             secs = docs.name_forest(shape, props=lambda i: PALETTE[i % 3])
             yield {"layer": "T", "spec": docs.doc_of(secs), "tags": {"sections": n, "shape": repr(shape)}}
+
+
+def layer_names(tier):
+    """Names that coincide where they may: across kinds, across levels, up to case, as prefix of one another."""
+    def doc(secs):
+        return docs.doc_of(secs)
+    cases = {
+        "section-and-property-of-one-name": doc([S("s", secs=[S("x")], props=[P("x", ["v"], "string")])]),
+        "section-and-property-of-one-name-property-first-elsewhere": doc([S("s", secs=[S("x", props=[P("x", [1], "int")])],
+                                                                          props=[P("x", ["v"], "string"), P("y", [2], "int")])]),
+        "child-named-like-its-parent": doc([S("x", secs=[S("x", secs=[S("x")], props=[P("x", ["v"], "string")])])]),
+        "top-level-sections-and-nested-ones-share-names": doc([S("a", secs=[S("b")]), S("b", secs=[S("a")])]),
+        "names-differing-in-case": doc([S("a", props=[P("p", ["v"], "string"), P("P", ["w"], "string")]), S("A")]),
+        "name-that-is-a-prefix-of-its-sibling": doc([S("a", props=[P("p", [1], "int"), P("p-2", [2], "int")]), S("a-2"),
+                                                     S("a-2-2")]),
+        "property-named-like-an-attribute": doc([S("name", "type", props=[P("value", ["v"], "string"), P("type", ["w"], "string"),
+                                                                          P("id", ["x"], "string"), P("section", ["y"], "string")],
+                                                   secs=[S("property"), S("odML")])]),
+        "numeric-looking-names": doc([S("1", props=[P("2", ["v"], "string"), P("2.0", ["w"], "string")]), S("01"), S("true")]),
+    }
+    for label, spec in cases.items():
+        yield {"layer": "N", "spec": spec, "tags": {"element": "names", "where": label}}
 
 
 def deviations(lookalikes=False):
@@ -219,7 +262,7 @@ def layer_unrepresentable():
 
 def all_cases(tier, lookalikes=False):
     for gen in (layer_values(tier, lookalikes), layer_attrs(tier, lookalikes), layer_cards(tier), layer_trees(tier),
-                layer_mixed(tier, lookalikes), layer_unrepresentable()):
+                layer_names(tier), layer_mixed(tier, lookalikes), layer_unrepresentable()):
         for c in gen:
             yield c
 
